@@ -235,6 +235,21 @@ func (x *Exec) checkRange(st *State, r Term, n ast.Node) {
 	}
 }
 
+// wrapped models sized-integer arithmetic of a function whose contract says `wraps`: Go defines the result modulo
+// 2^n; the model keeps the mathematical value when it is in range and an arbitrary value of the type otherwise
+// (no overflow obligation is generated).
+func (x *Exec) wrapped(st *State, r Term) Term {
+	lo, hi, ok := intRange(r.T)
+	if !ok || hi == "" {
+		return r
+	}
+	v := x.ctx.fresh("wrap", "Int")
+	in := and(arith("<=", lo, r.S), arith("<=", r.S, hi))
+	st.assume(and(arith("<=", lo, v), arith("<=", v, hi)))
+	st.assume(imp(in, app("=", v, r.S)))
+	return Term{S: v, Sort: "Int", T: r.T}
+}
+
 func (x *Exec) evalBinary(n *ast.BinaryExpr, st *State) Term {
 	switch n.Op {
 	case token.LAND, token.LOR:
@@ -294,14 +309,23 @@ func (x *Exec) evalBinary(n *ast.BinaryExpr, st *State) Term {
 			return Term{S: app("strcat", a.S, b.S), Sort: "Str", T: rt}
 		}
 		r := Term{S: arith("+", a.S, b.S), Sort: "Int", T: rt}
+		if x.con != nil && x.con.Wraps {
+			return x.wrapped(st, r)
+		}
 		x.checkRange(st, r, n)
 		return r
 	case token.SUB:
 		r := Term{S: arith("-", a.S, b.S), Sort: "Int", T: rt}
+		if x.con != nil && x.con.Wraps {
+			return x.wrapped(st, r)
+		}
 		x.checkRange(st, r, n)
 		return r
 	case token.MUL:
 		r := Term{S: arith("*", a.S, b.S), Sort: "Int", T: rt}
+		if x.con != nil && x.con.Wraps {
+			return x.wrapped(st, r)
+		}
 		x.checkRange(st, r, n)
 		return r
 	case token.QUO:
@@ -653,7 +677,7 @@ func (x *Exec) havocAll(st *State) {
 		delete(st.mem, k)
 	}
 	na := x.ctx.fresh("alloc", "Int")
-	st.assume(app("<=", st.alloc.S, na))
+	st.pc = append(st.pc, app("<=", st.alloc.S, na)) // unguarded: the counter only grows, whether or not a guarded call ran
 	st.alloc = Term{S: na, Sort: "Int"}
 }
 
